@@ -107,7 +107,7 @@ def gen_op(rng, prev_ruin):
     elif kind == 'recreate':
         op['op'] = 'recreate:' + rng.choice(RECREATES)
     elif kind == 'local':
-        op['op'] = 'local:' + rng.choice(LOCALS + ['sequence', 'inter_best', 'intra_random'])
+        op['op'] = 'local:' + rng.choice(LOCALS + ['sequence', 'inter_best', 'intra_random', 'reschedule', 'reschedule'])
     else:
         op['op'] = 'search:' + rng.choice(SEARCHES)
         op['ruin'] = rng.choice(RUINS)
@@ -181,6 +181,55 @@ def gen_fleet_case(rng, tier, observe):
             'ignored': ignored, 'seed': rng.next() % (2 ** 53), 'history': hist, 'observe': observe}
 
 
+def gen_repair_case(rng):
+    """targeted stream for repair_solution_from_unknown (LKHSearch, InfeasibleSearch): one tour of 5-7 nodes with a
+    pickup-delivery job whose delivery window is just wide enough for the direct leg pickup -> delivery, and singles placed
+    so that the distance-optimal cycle puts a single between pickup and delivery: after LKH re-orders the tour the first part
+    of the multi job re-inserts fine and the second one is late.  Geometry is mirrored / transposed / scaled at random
+    because the orientation LKH returns (and so which part comes first) depends on it."""
+    a, b, cc = rng.range(8, 12), 2 * rng.range(6, 10), rng.range(3, 5)
+    pts = {'depot': (0, 0), 'P': (a, 0), 'D': (a, b), 'S1': (a + cc, b // 2), 'S2': (0, b)}
+    extra = rng.below(3)
+    if extra >= 1:
+        pts['S3'] = (-cc, b // 2)
+    if extra >= 2:
+        pts['S4'] = (a // 2, b + cc)
+    if rng.chance(1, 2):
+        pts = {k: (-x, y) for k, (x, y) in pts.items()}
+    if rng.chance(1, 2):
+        pts = {k: (x, -y) for k, (x, y) in pts.items()}
+    if rng.chance(1, 2):
+        pts = {k: (y, x) for k, (x, y) in pts.items()}
+    names = ['depot'] + rng.shuffle([k for k in pts if k != 'depot'])
+    loc = {k: i for i, k in enumerate(names)}
+    xy = [pts[k] for k in names]
+    n = len(xy)
+    dur = [abs(xy[i][0] - xy[j][0]) + abs(xy[i][1] - xy[j][1]) for i in range(n) for j in range(n)]
+    dist = [2 * x for x in dur]
+    slack = rng.range(0, 2 * cc - 1)
+    jobs = [{'id': 1, 'multi': [{'places': [{'loc': loc['P'], 'svc': 0, 'tws': [[0, 'inf']]}], 'dem': [0, 1, 0, 0]},
+                                {'places': [{'loc': loc['D'], 'svc': 0, 'tws': [[0, a + b + slack]]}], 'dem': [0, 0, 0, 1]}]}]
+    for k in names:
+        if k.startswith('S'):
+            jobs.append({'id': len(jobs) + 1, 'places': [{'loc': loc[k], 'svc': 0, 'tws': [[0, 'inf']]}], 'dem': [0, 0, 1, 0]})
+    veh = {'start': 0, 'end': 0, 'shift_start': 0, 'shift_latest': None, 'shift_end': 'inf', 'cap': 10,
+           'costs': [10, 1, rng.range(0, 1), 0, 0]}
+    hist = []
+    for k in range(rng.range(3, 5)):
+        op = gen_op(rng, False)
+        op['op'] = 'search:' + (['lkh_improve', 'lkh_diverse'][k % 2] if k < 2 or rng.chance(2, 3) else 'infeasible')
+        if k == 0 and rng.chance(1, 2):
+            op['op'] = 'search:lkh_diverse'
+        op.setdefault('ruin', rng.choice(RUINS))
+        op.setdefault('recreate', rng.choice(RECREATES))
+        op.setdefault('recovery', rng.choice(RECREATES))
+        op.setdefault('local', rng.choice(LOCALS))
+        op.setdefault('repeat', 1)
+        hist.append(op)
+    return {'n': n, 'dur': dur, 'dist': dist, 'vehicles': [veh], 'jobs': jobs, 'features': {}, 'locks': [], 'ignored': [],
+            'seed': rng.next() % (2 ** 53), 'history': hist, 'observe': False, 'stream': 'repair'}
+
+
 def gen_case(rng, tier='quick', metric=None, observe=False):
     if metric is None and rng.chance(1, 4):
         return gen_fleet_case(rng, tier, observe)
@@ -188,7 +237,7 @@ def gen_case(rng, tier='quick', metric=None, observe=False):
     if metric is None:
         metric = not rng.chance(1, 12)
     dur, dist = gen_matrix(rng, n, metric)
-    feats = {'compat': rng.chance(1, 2), 'groups': rng.chance(1, 4), 'order': rng.chance(1, 3)}
+    feats = {'compat': rng.chance(1, 2), 'groups': rng.chance(1, 3), 'order': rng.chance(1, 3)}
     vehicles = [gen_vehicle(rng, n) for _ in range(rng.range(2, 4))]
     jobs = gen_jobs(rng, n, rng.range(4, 10), feats)
     locks = []
